@@ -1,4 +1,142 @@
-import Props.Lemmas
+/-
+  C01 — every listed input section is placed exactly once; nothing unlisted is placed.
+  C02 (order) and C11 (partial linking) reuse the lemmas of this file.
+-/
+import Props.Writer
 namespace Slinky.C01
-theorem placeholder : True := trivial
+open Slinky W
+
+theorem shouldEmit_empty (o : Opts) : shouldEmit o {} = true := by
+  simp [shouldEmit]
+
+theorem concatMapE_singleton {α β ε} (f : α → Except ε (List β)) (a : α) :
+    concatMapE f [a] = (match f a with | .ok x => .ok x | .error e => .error e) := by
+  unfold concatMapE
+  cases f a with
+  | error e => rfl
+  | ok x => simp [concatMapE]
+
+/-- **a plain object entry, one section, one statement.** An included object entry without
+`section_order`, asked for a section that has no sub-groups (or in the main script of partial
+mode, which never expands sub-groups), contributes exactly one input statement: its own path
+under the current base directory, that section, `KEEP` per its effective `keep_sections`. -/
+theorem object_placed_once (cx : Ctx) (seg : Segment) (secs : List Str) (n : Nat)
+    (p : Str) (c : Cond) (keep : Keep) (sec base : Str) (parents : List Str) (q : Str)
+    (hinc : shouldEmit cx.o c = true) (hnp : sec ∉ parents) (hesc : cx.esc cx.o p = .ok q)
+    (hsub : cx.refPartial = true ∨ subgroupsOf seg sec = []) :
+    emitEntry cx seg secs (n + 1) (.mk p .object [] 0 [] [] [] [] [] c keep) sec base parents
+      = .ok [.input (keepFor keep sec) (display (pathPush base q)) none sec seg.wildcardSections] := by
+  unfold emitEntry
+  simp only [FileInfo.cond, FileInfo.sectionOrder, FileInfo.kind, FileInfo.path, FileInfo.keep, hinc,
+    Bool.not_true, Bool.false_eq_true, if_false, hnp, sectionsToEmitHere, List.isEmpty_nil, if_true]
+  rw [concatMapE_singleton]
+  simp only [hesc, liftPath]
+  rcases hsub with h | h
+  · simp [h]
+  · simp [h, concatMapE]
+
+/-- the same for an archive entry: `path:subfile(section)`. -/
+theorem archive_placed_once (cx : Ctx) (seg : Segment) (secs : List Str) (n : Nat)
+    (p sf : Str) (c : Cond) (keep : Keep) (sec base : Str) (parents : List Str) (q : Str)
+    (hinc : shouldEmit cx.o c = true) (hnp : sec ∉ parents) (hesc : cx.esc cx.o p = .ok q)
+    (hsub : cx.refPartial = true ∨ subgroupsOf seg sec = []) :
+    emitEntry cx seg secs (n + 1) (.mk p .archive sf 0 [] [] [] [] [] c keep) sec base parents
+      = .ok [.input (keepFor keep sec) (display (pathPush base q)) (some sf) sec seg.wildcardSections] := by
+  unfold emitEntry
+  simp only [FileInfo.cond, FileInfo.sectionOrder, FileInfo.kind, FileInfo.path, FileInfo.keep, FileInfo.subfile, hinc,
+    Bool.not_true, Bool.false_eq_true, if_false, hnp, sectionsToEmitHere, List.isEmpty_nil, if_true]
+  rw [concatMapE_singleton]
+  simp only [hesc, liftPath]
+  rcases hsub with h | h
+  · simp [h]
+  · simp [h, concatMapE]
+
+/-- **pads and linker offsets sit only in their own section**: one statement when asked for
+their section, nothing for any other section (sub-groups aside). -/
+theorem pad_only_in_its_section (cx : Ctx) (seg : Segment) (secs : List Str) (n : Nat)
+    (amount : Nat) (own : Str) (c : Cond) (keep : Keep) (sec base : Str) (parents : List Str)
+    (hinc : shouldEmit cx.o c = true) (hnp : sec ∉ parents)
+    (hsub : cx.refPartial = true ∨ subgroupsOf seg sec = []) :
+    emitEntry cx seg secs (n + 1) (.mk [] .pad [] amount own [] [] [] [] c keep) sec base parents
+      = .ok (if own = sec then [.addAssign c!"." (.hex amount)] else []) := by
+  rw [emitEntry]
+  simp only [FileInfo.cond, FileInfo.sectionOrder, FileInfo.kind, FileInfo.sect, FileInfo.padAmount, hinc,
+    Bool.not_true, Bool.false_eq_true, if_false, hnp, sectionsToEmitHere, List.isEmpty_nil, if_true]
+  rw [concatMapE_singleton]
+  by_cases hh : own = sec
+  · rcases hsub with h | h
+    · simp [h, hh]
+    · simp [h, hh, concatMapE]
+  · rcases hsub with h | h
+    · simp [h, hh]
+    · simp [h, hh, concatMapE]
+
+/-- **groups: depth-first, in list order, under the group's directory.** An included group
+contributes, for a section, the concatenation of what its files contribute for that section,
+in the order of its file list, with the group's (expanded) `dir` appended to the base
+directory; it adds nothing of its own. -/
+theorem group_is_concatenation (cx : Ctx) (seg : Segment) (secs : List Str) (n : Nat)
+    (files : List FileInfo) (dir : Str) (c : Cond) (keep : Keep) (sec base : Str) (parents : List Str) (d : Str)
+    (hinc : shouldEmit cx.o c = true) (hnp : sec ∉ parents) (hesc : cx.esc cx.o dir = .ok d) :
+    emitEntry cx seg secs (n + 1) (.mk [] .group [] 0 [] [] [] files dir c keep) sec base parents
+      = concatMapE (fun child => emitEntry cx seg secs n child sec (pathPush base d) []) files := by
+  rw [emitEntry]
+  simp only [FileInfo.cond, FileInfo.sectionOrder, FileInfo.kind, FileInfo.dir, FileInfo.files, hinc,
+    Bool.not_true, Bool.false_eq_true, if_false, hnp, sectionsToEmitHere, List.isEmpty_nil, if_true]
+  rw [concatMapE_singleton]
+  simp only [hesc, liftPath, decide_true, Bool.and_self, Bool.or_true, if_true]
+  cases concatMapE (fun child => emitEntry cx seg secs n child sec (pathPush base d) []) files with
+  | error e => rfl
+  | ok a => simp
+
+/-- **nothing unlisted**: whatever an object entry emits, for whatever section and however its
+`section_order` and the sub-group table send it around, is an input statement naming that
+entry's own path and no archive member. -/
+theorem object_names_only_itself (cx : Ctx) (seg : Segment) (secs : List Str) :
+    ∀ (n : Nat) (p : Str) (so : List (Str × Str)) (c : Cond) (keep : Keep) (sec base : Str) (parents : List Str)
+      (ls : List Line),
+      emitEntry cx seg secs n (.mk p .object [] 0 [] [] so [] [] c keep) sec base parents = .ok ls →
+      ∀ l ∈ ls, ∃ q k, cx.esc cx.o p = .ok q ∧
+        l = .input (keepFor keep k) (display (pathPush base q)) none k seg.wildcardSections := by
+  intro n
+  induction n with
+  | zero => intro p so c keep sec base parents ls h; simp [emitEntry] at h
+  | succ n ih =>
+    intro p so c keep sec base parents ls h l hl
+    rw [emitEntry] at h
+    simp only [FileInfo.cond, FileInfo.sectionOrder, FileInfo.kind, FileInfo.path, FileInfo.keep] at h
+    by_cases hinc : shouldEmit cx.o c = true
+    · simp only [hinc, Bool.not_true, Bool.false_eq_true, if_false] at h
+      by_cases hp : sec ∈ parents
+      · simp [hp] at h
+      · simp only [hp, if_false] at h
+        obtain ⟨k, _, rk, hk, hlk⟩ := concatMapE_mem _ _ _ h l hl
+        cases hq : cx.esc cx.o p with
+        | error e => simp [hq, liftPath] at hk
+        | ok q =>
+          simp only [hq, liftPath] at hk
+          split at hk
+          · contradiction
+          · rename_i b hb
+            injection hk with hk
+            subst hk
+            simp only [List.cons_append, List.nil_append, List.mem_cons] at hlk
+            rcases hlk with hla | hlb
+            · exact ⟨q, k, rfl, hla⟩
+            · by_cases hc : cx.refPartial = true
+              · simp [hc] at hb
+                subst hb; simp at hlb
+              · simp [hc] at hb
+                obtain ⟨other, _, ro, ho, hlo⟩ := concatMapE_mem _ _ _ hb l hlb
+                obtain ⟨q', k', hq', hl'⟩ := ih p so c keep other base (sec :: parents) ro ho l hlo
+                rw [hq] at hq'
+                exact ⟨q', k', hq', hl'⟩
+    · have hf : shouldEmit cx.o c = false := by
+        cases hh : shouldEmit cx.o c
+        · rfl
+        · exact absurd hh hinc
+      simp [hf] at h
+      subst h
+      simp at hl
+
 end Slinky.C01
